@@ -22,7 +22,14 @@ THEOREMS = [NS + t for t in (
     'parallel_eq_serial_stripe_order',
     'narrow_stripe_races',
 )] + ['AbacusVerif.Conc.disjoint_footprints_interleave', 'AbacusVerif.Conc.rmw_interleave',
-      'AbacusVerif.Conc.lost_update_witness']
+      'AbacusVerif.Conc.lost_update_witness'] + ['AbacusVerif.TscLink.' + t for t in (
+          'tsc_parallel_eq_serial',      # C17 partition -> C07 loops -> C06 kernel, every schedule == C06 serial scatter
+          'writes_rows_subset',          # bridge: C06's subscripts along the partition axis are C07's rowsOf
+          'keyInt_eq_stripeOf',          # C17's key is C07's stripe
+          'stripe_slice',                # stripe s of C17's output is starts[s]:starts[s+1] and holds members s
+          'stable_perm',                 # C17's output is a permutation of the input
+      )]
+LEAN_MODULES = ['AbacusVerif.Props.C07', 'AbacusVerif.Props.C07Link']
 DRIVER = 'drv_c07'
 RULE = ('(a) exhaustive decision table: every (n1d <= 64 [160 thorough], nthread 0..24 [32], npartition in {None, 0, -1} U 1..n1d+1) '
         'through the real tsc_parallel with _tsc_parallel replaced by a recorder, against choosePartition; '
@@ -38,6 +45,8 @@ TRUSTED = ['memory model: sequentially consistent at the granularity of one load
            'rows_disjoint leaves a margin for it but no float model is proved',
            'index type int16 of _tsc_scatter: grids wider than 32767 cells are out of scope']
 ASSUMPTIONS = ['positions in [0, BoxSize] along the partition axis, offset between 0 and one cell',
+               'tsc_parallel_eq_serial: on the other two axes the particles lie in the fault-free domain of the C06 kernel '
+               '(grid coordinate >= -g + 3/2); the schedules of the partition itself are covered by C17 partition_stable',
                'nthread >= 1 after resolving nthread < 0 to the number of cores; nthread <= NUMBA_NUM_THREADS']
 
 
